@@ -213,6 +213,15 @@ def Tree.startPerm (v : Variant) (lt : α → α → Bool) (sentinel dflt : α) 
   let t ← insertList dflt regs t
   t.init lt
 
+/-- What the tree sees when the caller, having been handed the winner, overwrites or releases the
+storage of the consumed key before it feeds the next one (a head slot refilled in place, a freed
+node): for the pointer classes `losers_[0].keyp` then points to memory holding `x` (or garbage).
+`delete_min_insert` must not depend on it — `Props/C09.lean`, `deleteMinInsert_ignores_winner_key`. -/
+def Tree.clobberWinnerKey (t : Tree α) (x : α) : Tree α :=
+  match t.losers[0]? with
+  | some W => { t with losers := t.losers.setIfInBounds 0 { W with key := x } }
+  | none => t
+
 /-- `min_source()` -/
 def Tree.minSource (t : Tree α) : Option Nat := do
   let W ← rd t.losers 0
